@@ -156,6 +156,11 @@ func run(sc scenario) (out runOut) {
 		pols = []failsafe.Policy[int]{fallback.WithResult[int](55), retrypolicy.Builder[int]().WithMaxRetries(5).Build()}
 	case "hedge":
 		pols = []failsafe.Policy[int]{hedgepolicy.BuilderWithDelay[int](time.Hour).Build()}
+	case "timeout(retry)":
+		// a Timeout that never fires outside the retry policy: the retry policy runs on a further copy of the execution
+		pols = []failsafe.Policy[int]{timeoutWith(time.Hour), retrypolicy.Builder[int]().WithMaxRetries(5).Build()}
+	case "timeout(hedge)":
+		pols = []failsafe.Policy[int]{timeoutWith(time.Hour), hedgepolicy.BuilderWithDelay[int](time.Hour).Build()}
 	}
 	ex := failsafe.NewExecutor[int](pols...).
 		OnDone(func(e failsafe.ExecutionDoneEvent[int]) {
@@ -265,7 +270,8 @@ func run(sc scenario) (out runOut) {
 			return -1, false
 		}
 	}
-	usesRetry := sc.Stack == "retry" || sc.Stack == "retry-delay" || sc.Stack == "fallback(retry)"
+	usesRetry := sc.Stack == "retry" || sc.Stack == "retry-delay" || sc.Stack == "fallback(retry)" || sc.Stack == "timeout(retry)"
+	isHedgeStack := sc.Stack == "hedge" || sc.Stack == "timeout(hedge)"
 	cancelledBeforeCompletion := sc.Cancel == "before-start"
 	for k := 1; ; k++ {
 		n, ok := waitEntered()
@@ -409,9 +415,9 @@ func run(sc scenario) (out runOut) {
 	if isRun && finalV != 0 && sc.Stack != "fallback(retry)" {
 		return fail("run-value", "a Run* execution produced the value %d", finalV)
 	}
-	if cancelledBeforeCompletion && (usesRetry || sc.Stack == "hedge") {
+	if cancelledBeforeCompletion && (usesRetry || isHedgeStack) {
 		completedAnyway := false
-		if sc.Stack == "hedge" && sc.Cancel == "in-attempt" {
+		if isHedgeStack && sc.Cancel == "in-attempt" {
 			completedAnyway = false
 		}
 		if !errors.Is(finalE, failsafe.ErrExecutionCanceled) && !completedAnyway {
@@ -473,7 +479,7 @@ func doneClosed(er failsafe.ExecutionResult[int]) bool {
 
 func genScenario(t *rapid.T) scenario {
 	sc := scenario{
-		Stack: rapid.SampledFrom([]string{"none", "retry", "retry", "retry-delay", "fallback(retry)", "hedge"}).Draw(t, "stack"),
+		Stack: rapid.SampledFrom([]string{"none", "retry", "retry", "retry-delay", "fallback(retry)", "hedge", "timeout(retry)", "timeout(hedge)"}).Draw(t, "stack"),
 		Entry: rapid.IntRange(4, 7).Draw(t, "entry"),
 	}
 	n := rapid.IntRange(0, 7).Draw(t, "attempts")
